@@ -367,6 +367,9 @@ fn run_case(c: &Case, r: &mut Rng, model: &mut Model) -> Outcome {
     }
     out.schedule = sim.render_schedule();
     out.result = out.results.join(" ; ");
+    for _ in 0..sh.lock().settled {
+        out.counters.push("native:close-waited-for-operation-in-flight".into());
+    }
     if c.native {
         let _ = std::fs::remove_dir_all(&scratch);
     }
@@ -1051,6 +1054,33 @@ fn main() {
     let model_path = opts.model.clone().unwrap_or_else(|| format!("{}/.lake/build/bin/qm_c14", qverif::lean_dir()).into());
     let mut model = Model::spawn(&model_path);
 
+    // ---- --replay FILE: re-run the recorded case (same program, workers, quantum, schedule seed) ----
+    if let Some(path) = opts.replay.clone() {
+        let text = std::fs::read_to_string(&path).unwrap_or_else(|e| panic!("cannot read replay {}: {e}", path.display()));
+        let j: serde_json::Value = serde_json::from_str(&text).expect("replay JSON");
+        let rj = &j["replay"];
+        let src = rj["program"].as_str().expect("replay.program").to_string();
+        let what = j["what"].as_str().unwrap_or("");
+        let native = rj["native"].as_bool().unwrap_or_else(|| what.contains("[program native"));
+        let case_no = rj["case"].as_u64().unwrap_or(0);
+        let seed = j["seed"].as_u64().unwrap_or(opts.seed);
+        let mut r = Rng::for_case(seed ^ 0x5C4ED, case_no);
+        let n_workers = 1 + r.usize(4);
+        let quantum = *r.pick(&[Some(1usize), Some(3), Some(17), None]);
+        let c = Case { native, src: src.clone(), n_workers, quantum };
+        let o = run_case(&c, &mut r, &mut model);
+        println!("# replay of {}: native={native} workers={n_workers} quantum={quantum:?} result={}", path.display(), o.result);
+        println!("# schedule {} the recorded one", if rj["schedule"].as_str() == Some(o.schedule.as_str()) { "IS" } else { "differs from" });
+        for cn in &o.counters {
+            ev.hit(cn);
+        }
+        ev.case(&(&src, &o.schedule), true);
+        for (sig, what, found) in &o.problems {
+            ev.violation(sig, what, json!({"program": src, "native": native, "workers": n_workers, "quantum": quantum, "case": case_no, "schedule": o.schedule}), *found);
+        }
+        std::process::exit(ev.finish());
+    }
+
     // ---- corpus: fixed programs first ----
     let mut programs: Vec<(String, String)> = corpus();
     let n_gen = opts.tier.pick(1500, 15000);
@@ -1155,7 +1185,7 @@ fn main() {
                 ev.violation(
                     sig,
                     &format!("{what} [program {name}, {n_workers} workers, quantum {quantum:?}]"),
-                    json!({"program": src, "workers": n_workers, "quantum": quantum, "case": case_no,
+                    json!({"program": src, "name": name, "native": native, "workers": n_workers, "quantum": quantum, "case": case_no,
                            "schedule": o.schedule, "result": o.result,
                            "broken": if *found { "oracle on the implementation".to_string() } else { format!("correspondence model<->impl ({sig})") }}),
                     *found,
